@@ -170,6 +170,54 @@ def handle (fs : List String) : String :=
        | .ok _ => "ok"
        | .error e => errStr e)
     | _, _, _, _ => "bad-op"
+  | ["verifyk", present, count, bad, sigtab, hashtab, rp, p] =>
+    -- verify() with the key import as a parameter: is PUBLIC_KEY_PATH truthy, import_results.count
+    match parseTab sigtab, parseTab hashtab, parsePlay rp, parsePlay p, count.toInt? with
+    | some st, some ht, some rp, some p, some c =>
+      if present ≠ "0" ∧ present ≠ "1" then "bad-op" else
+      (match verifyK (D := Str) id (drvSigDecodes (decList bad)) (drvSigValid st) (drvHashOf ht) ⟨present == "1", c⟩ rp p with
+       | .ok _ => "ok"
+       | .error e => errStr e)
+    | _, _, _, _, _ => "bad-op"
+  | ["verifyd", docmode, present, count, bad, sigtab, hashtab, rp, p] =>
+    -- verify() from the revocation list's text on: docmode = good (rp is the play it loads as) / unloadable / notmapping
+    match parseTab sigtab, parseTab hashtab, parsePlay rp, parsePlay p, count.toInt? with
+    | some st, some ht, some rp, some p, some c =>
+      if present ≠ "0" ∧ present ≠ "1" then "bad-op" else
+      let rdoc : Option RDoc := if docmode = "good" then some (.play rp) else if docmode = "unloadable" then some .unloadable
+        else if docmode = "notmapping" then some .notMapping else none
+      (match rdoc with
+       | none => "bad-op"
+       | some rdoc =>
+         match verifyDoc (D := Str) id (drvSigDecodes (decList bad)) (drvSigValid st) (drvHashOf ht) ⟨present == "1", c⟩ rdoc p with
+         | .ok _ => "ok"
+         | .error e => errStr e)
+    | _, _, _, _, _ => "bad-op"
+  | ["vplayk", present, count, bad, sigtab, p] =>
+    -- verify_play with the key import as a parameter: (GPG's verdict, digest text) or the error
+    match parseTab sigtab, parsePlay p, count.toInt? with
+    | some st, some p, some c =>
+      if present ≠ "0" ∧ present ≠ "1" then "bad-op" else
+      (match verifyPlayFullK (D := Str) id (drvSigDecodes (decList bad)) (drvSigValid st) ⟨present == "1", c⟩ p with
+       | .ok (v, t) => (if v then "valid\t" else "invalid\t") ++ encStr t
+       | .error e => errStr e)
+    | _, _, _ => "bad-op"
+  | ["main", skip, load, entries] =>
+    -- __main__: entries = answers of verify() for the top-level entries (ok / verr / crash / notmap), '-' = no entry
+    let parseE : String → Option (Option (Except Err Unit)) := fun t =>
+      if t = "ok" then some (some (.ok ())) else if t = "verr" then some (some (.error .verr))
+      else if t = "crash" then some (some (.error .crash)) else if t = "notmap" then some none else none
+    let es : Option (List (Option (Except Err Unit))) :=
+      if entries = "-" then some [] else
+      (entries.splitOn ",").foldr (fun t acc => match acc, parseE t with
+        | some l, some e => some (e :: l)
+        | _, _ => none) (some [])
+    if (skip ≠ "0" ∧ skip ≠ "1") ∨ (load ≠ "loaded" ∧ load ≠ "loaderr") then "bad-op" else
+    match es with
+    | none => "bad-op"
+    | some es =>
+      let r := mainRun (skip == "1") (if load = "loaded" then some es else none)
+      (match r.1 with | .ok => "exit0" | .bad => "exitbad" | .crash => "traceback") ++ "\t" ++ (if r.2 then "printed" else "silent")
   | _ => "bad-op"
 
 def main : IO Unit := serve handle
